@@ -42,6 +42,32 @@ example : rewriteFilters (T.or (.and (.atom 0) (.atom 1)) (.atom 0) : P) = .atom
 example : rewriteFilters (T.or (.and (.atom 0) (.and (.not (.atom 1)) (.atom 0))) (.and (.not (.atom 1)) (.and (.atom 2) (.atom 0))) : P)
     = .and (.atom 0) (.not (.atom 1)) := by decide
 
+/-! ### re-assembling the parent after the OR rewrite -/
+
+/-- FULL STATEMENT (false on the current tree): `∀ operands self new, self ∈ operands →
+      rebuildFirst operands new = substituteOperand operands self new`.
+    `Filter._simplify_up` rebuilds its parent as `type(parent)(new_filter, *parent.operands[1:])`; that is the
+    substitution of the filter only when the filter is the parent's first operand (and occurs once). -/
+theorem C03_or_rewrite_parent_partial {ε : Type} [DecidableEq ε] (self new : ε) (rest : List ε)
+    (h : self ∉ rest) : rebuildFirst (self :: rest) new = substituteOperand (self :: rest) self new := by
+  simp only [rebuildFirst, substituteOperand, List.drop_succ_cons, List.drop_zero, List.map_cons, if_true]
+  congr 1
+  induction rest with
+  | nil => rfl
+  | cons a t ih =>
+    simp only [List.mem_cons, not_or] at h
+    simp only [List.map_cons]
+    rw [if_neg (fun e => h.1 e.symm), ← ih h.2]
+
+/-- the filter as second operand (right input of a Merge, right operand of a binop, a frame of Concat):
+    the first operand is overwritten and the old filter stays -/
+theorem C03_or_rewrite_parent_counterexample :
+    ∃ (operands : List Nat) (self new : Nat), self ∈ operands ∧
+      rebuildFirst operands new ≠ substituteOperand operands self new :=
+  ⟨[7, 1], 1, 2, by decide, by decide⟩
+
+example : rebuildFirst [1, 7, 8] 2 = substituteOperand [1, 7, 8] 1 2 := by decide
+
 /-! ### splitting a conjunction, squashing consecutive filters -/
 
 /-- `Filter(m, p & q)` = `Filter(Filter(m, p), q)` on row lists (the `And` branch of `Merge._simplify_up`) -/
